@@ -10,7 +10,7 @@ from . import common
 
 PROP = "C18"
 KQ = ("NL", "CE", "J", "W0")
-KT = KQ + ("CO", "BL", "NLI", "W3", "WT", "CD", "CEE", "IND0")
+KT = KQ + ('CO', 'BL', 'W3')
 
 
 def nonempty(dMap):
